@@ -32,7 +32,8 @@ pub fn mask_for(prop: &str) -> Mask {
         // acceptance, value, how much each sub-parser consumed (probe extents)
         "C01" | "C02" => Mask { out: true, errs: "none", obs: "ext", insp: false },
         "C03" | "C19" | "C20" => Mask { out: false, errs: "none", obs: "none", insp: false },
-        "C04" => Mask { out: false, errs: "all", obs: "none", insp: false },
+        // check vs parse is decided on the real crate (real_asserts); the model contributes acceptance
+        "C04" => Mask { out: false, errs: "none", obs: "none", insp: false },
         "C05" => Mask { out: false, errs: "ifok", obs: "none", insp: false },
         "C06" => Mask { out: false, errs: "last", obs: "none", insp: false },
         "C07" => Mask { out: true, errs: "none", obs: "none", insp: false },
